@@ -1018,6 +1018,20 @@ def generate(template_path, flavour, repo="/repo", vacuity=False, rules=None, ba
         body = apply_R7(body, stats)
         body = apply_R7b(body, stats)
         guards = []
+        # R4e: a local alias of a node's adjacency cell (`let x = &n.inner.2;`) is replaced by the cell expression itself,
+        # so that the access chains of R4 are seen (a place expression without side effects)
+        skip4e = set()
+        while True:
+            mm = next((x for x in re.finditer(r"let\s+([A-Za-z_]\w*)\s*=\s*&\s*([\w\.]+?)\s*\.\s*inner\s*\.\s*2\s*;", mask(body)) if x.group(1) not in skip4e), None)
+            if mm is None:
+                break
+            al, recv = mm.group(1), mm.group(2)
+            rest = body[:mm.start()] + body[mm.end():]
+            if re.search(r"(?<![\w.])%s\b(?!\s*\.\s*(borrow|borrow_mut|read|write)\s*\()" % re.escape(al), mask(rest)):
+                skip4e.add(al)   # used in some other way: leave it alone
+                continue
+            body = re.sub(r"(?<![\w.])%s\b" % re.escape(al), "%s.inner.2" % recv, rest)
+            stats["R4e"] = stats.get("R4e", 0) + 1
         if b.heap == "mut":
             body = apply_R9(body, stats)
         if b.heap != "none" or CHAIN_RE.search(mask(body)):
